@@ -2,6 +2,8 @@
 //! that Coq evaluates against the model and the specification (see /verif/DESIGN.md section 5).
 mod util;
 mod e_asm;
+mod vmrun;
+mod e_vm;
 
 fn main() {
     // panics of the implementation are caught and reported as outcomes; keep stderr quiet
@@ -10,6 +12,7 @@ fn main() {
     match a.engine.as_str() {
         "asm" => e_asm::run_asm(&a),
         "fx" => e_asm::run_fx(&a),
+        "vm" => e_vm::run(&a),
         other => { eprintln!("unknown engine {other}"); std::process::exit(2); }
     }
 }
